@@ -1,11 +1,13 @@
 (* C05 -- any input terminates in bounded time and memory; the interpreter survives.
    Statements only (`exact`), Print Assumptions after each.  The models: theories/Header.v (header
    parser; a count that the Python turns into an allocation or a loop bound is compared with `lim`,
-   beyond it the answer is Err EFuel), theories/Decomp.v (decompress, Worker.decompress),
-   theories/Cost.v (loops whose trip count is a declared number, Header._read's loop; proofs about the
-   parser in theories/CostProofs.v).
-   The property as stated is FALSE of the code: the `_refuted` theorems carry the witnesses (each is
-   replayed on the implementation by tools/harness/c05.py); the other theorems say what does hold. *)
+   beyond it the answer is Err EFuel), theories/Decomp.v (SevenZipDecompressor.decompress),
+   theories/Cost.v (the two decompress loops with their stall guard, the passes over declared numbers;
+   proofs about the parser in theories/CostProofs.v).
+   Status of the property on the current tree: the TIME clause holds of the model (section 3, 4: the
+   decode loops end for every decoder behaviour, the passes are linear); the MEMORY clause is still
+   FALSE: `_refuted` theorems carry the witnesses (numfiles, sub-stream counts), each replayed on the
+   implementation by tools/harness/c05.py. *)
 From P7 Require Import Prelude PyPrims Number Header Cost CostProofs.
 Require P7.Decomp.
 Open Scope Z_scope.
@@ -46,37 +48,47 @@ Theorem C05_bit_vector_bounded : forall lim count checkall bs l r,
 Proof. exact rd_boolean_bound. Qed.
 Print Assumptions C05_bit_vector_bounded.
 
-(* PackInfo: with a SIZE section numstreams is backed by bytes, without it it is free *)
+(* PackInfo: with a SIZE section numstreams is backed by bytes *)
 Theorem C05_packinfo_counts : forall lim bs p r,
   parse_packinfo lim bs = Ok (p, r) ->
   p_numstreams p <= lim /\ (length r < length bs)%nat /\ (p_sizes p = [] \/ p_numstreams p <= zlen bs).
 Proof. exact parse_packinfo_bound. Qed.
 Print Assumptions C05_packinfo_counts.
 
-Theorem C05_packinfo_resource_answer : forall lim bs,
-  parse_packinfo lim bs = Err EFuel ->
-  exists pos n r1 r2, rd_number bs = Ok (pos, r1) /\ rd_number r1 = Ok (n, r2) /\ lim < n.
-Proof. exact parse_packinfo_fuel. Qed.
-Print Assumptions C05_packinfo_resource_answer.
+(* ... and packpositions is one pass over the sizes that were read: numstreams without sizes allocates nothing
+   (formerly refuted: range(numstreams + 1) was walked, quadratically when sizes were present) *)
+Theorem C05_packpositions_linear : forall sizes,
+  zlen (packpositions sizes) = zlen sizes + 1 /\ packpositions_steps (zlen sizes) = zlen sizes + 1.
+Proof. exact packpositions_linear. Qed.
+Print Assumptions C05_packpositions_linear.
 
-(* Folder: immune -- the trip count of the packed_indices loop is at most bonds + 1 <= |input| *)
+Theorem C05_packpositions_within_input : forall lim bs p r,
+  parse_packinfo lim bs = Ok (p, r) -> 2 * zlen (packpositions (p_sizes p)) <= 4 * zlen bs + 2.
+Proof. exact parse_packinfo_packpositions_linear. Qed.
+Print Assumptions C05_packpositions_within_input.
+
+(* Folder: immune -- the trip count of the packed_indices pass is at most bonds + 1 <= |input|, and the
+   pass is one set construction plus one lookup per input stream (formerly a search per stream) *)
 Theorem C05_folder_immune : forall lim bs, zlen bs < lim -> parse_folder lim bs <> Err EFuel.
 Proof. exact parse_folder_immune. Qed.
 Print Assumptions C05_folder_immune.
 
-(* ---- 2. the memory clause is refuted: counts that are backed by nothing ---- *)
+Theorem C05_bindpairs_linear : forall lim bs f r,
+  parse_folder lim bs = Ok (f, r) ->
+  let totalin := sumZ (map c_nin (f_coders f)) in
+  let nbonds := sumZ (map c_nout (f_coders f)) - 1 in
+  totalin - nbonds = 1 ->
+  packed_indices_steps (f_bonds f) totalin <= 2 * zlen bs + 1.
+Proof. exact parse_folder_bindpairs_linear. Qed.
+Print Assumptions C05_bindpairs_linear.
+
+(* ---- 2. the memory clause is still refuted: counts that are backed by nothing ---- *)
 
 Theorem C05_numfiles_alloc_refuted :
   length witness_numfiles = 11%nat /\
   forall lim, lim < 2 ^ 63 -> parse_header lim witness_numfiles = Err EFuel.
 Proof. exact numfiles_alloc_witness. Qed.
 Print Assumptions C05_numfiles_alloc_refuted.
-
-Theorem C05_numstreams_alloc_refuted :
-  length witness_numstreams = 13%nat /\
-  forall lim, lim < 2 ^ 63 -> parse_header lim witness_numstreams = Err EFuel.
-Proof. exact numstreams_alloc_witness. Qed.
-Print Assumptions C05_numstreams_alloc_refuted.
 
 Theorem C05_substreams_alloc_refuted :
   length witness_substreams = 23%nat /\
@@ -96,12 +108,12 @@ Print Assumptions C05_alloc_by_declared_count_refuted.
    the limit and the limit within the input size it is linear in the input (wf_bytes: the input consists
    of bytes; a negative "number" could otherwise stand for a sub-stream count) *)
 Theorem C05_parse_cost_partial : forall lim bs h,
-  wf_bytes bs = true -> parse_header lim bs = Ok h -> header_size h <= 17 * zlen bs + 5 * Z.max lim 0 + 1.
+  wf_bytes bs = true -> parse_header lim bs = Ok h -> header_size h <= 17 * zlen bs + 4 * Z.max lim 0 + 1.
 Proof. exact parse_cost_partial. Qed.
 Print Assumptions C05_parse_cost_partial.
 
 Theorem C05_parse_cost_linear : forall lim bs h,
-  wf_bytes bs = true -> lim <= zlen bs -> parse_header lim bs = Ok h -> header_size h <= 22 * zlen bs + 1.
+  wf_bytes bs = true -> lim <= zlen bs -> parse_header lim bs = Ok h -> header_size h <= 21 * zlen bs + 1.
 Proof. exact parse_cost_linear. Qed.
 Print Assumptions C05_parse_cost_linear.
 
@@ -109,139 +121,96 @@ Example C05_parse_cost_example :
   (do h <- parse_header 10 [1; 5; 3; 17; 5; 0; 65; 0; 0; 0; 0; 0]; Ok (header_size h)) = Ok 4.
 Proof. vm_compute. reflexivity. Qed.
 
-(* ---- 3. the time clause is refuted: loops whose trip count is a declared number ---- *)
+(* ---- 3. the passes over the input are linear (formerly refuted: 65536 reads per declared file at the end
+        of the input; declared-packsize / blocksize reads in test()) ---- *)
 
-Theorem C05_packpositions_quadratic : forall n, 0 <= n -> 2 * packpositions_steps n n = (n + 1) * (n + 2).
-Proof. exact packpositions_steps_quadratic. Qed.
-Print Assumptions C05_packpositions_quadratic.
+Theorem C05_read_utf16_linear : forall bs, 1 <= utf16_iters bs /\ 2 * utf16_iters bs <= zlen bs + 2.
+Proof. exact utf16_iters_linear. Qed.
+Print Assumptions C05_read_utf16_linear.
 
-Theorem C05_packpositions_superlinear_refuted : forall a b,
-  0 <= a -> 0 <= b -> exists n, 0 <= n /\ a * n + b < packpositions_steps n n.
-Proof. exact packpositions_superlinear. Qed.
-Print Assumptions C05_packpositions_superlinear_refuted.
+Theorem C05_names_linear : forall n bs, 2 * names_steps n bs <= 2 * Z.of_nat n + zlen bs.
+Proof. exact names_steps_linear. Qed.
+Print Assumptions C05_names_linear.
 
-Theorem C05_packpositions_without_sizes : forall n, 0 <= n -> packpositions_steps 0 n = n + 1.
-Proof. exact packpositions_steps_nosizes. Qed.
-Print Assumptions C05_packpositions_without_sizes.
-
-Theorem C05_names_at_eof_refuted : forall n, names_steps n [] = 65536 * Z.of_nat n.
+Theorem C05_names_at_eof : forall n, names_steps n [] = Z.of_nat n.
 Proof. exact names_steps_eof. Qed.
-Print Assumptions C05_names_at_eof_refuted.
+Print Assumptions C05_names_at_eof.
 
-Theorem C05_bindpairs_quadratic : forall bonds totalin,
-  0 <= totalin -> (forall b, In b bonds -> fst b < 0 \/ totalin <= fst b) ->
-  packed_indices_steps bonds totalin = zlen bonds * totalin.
-Proof. exact packed_indices_steps_worst. Qed.
-Print Assumptions C05_bindpairs_quadratic.
+Theorem C05_read_digest_linear : forall size bsz avail,
+  0 < bsz -> 0 <= read_digest_iters size bsz avail <= Z.max avail 0 + 1.
+Proof. exact read_digest_iters_linear. Qed.
+Print Assumptions C05_read_digest_linear.
 
-Theorem C05_read_digest_trip_count : forall size bsz,
-  0 < size -> 0 < bsz -> size <= read_digest_iters size bsz * bsz.
-Proof. exact read_digest_iters_bound. Qed.
-Print Assumptions C05_read_digest_trip_count.
+(* ---- 4. THE HEADLINE: the decode loops end ---- *)
 
-(* ---- 4. the decompress loops ---- *)
-
-(* decompress_loop_terminates, under the progress contract: I relates the decompressor state to the
-   bytes still wanted; a call may return nothing without having read input at most k times in a row *)
+(* decompress_loop_terminates, unconditionally: for every type and behaviour of the decoder stages, every state of
+   the decompressor, every max_block_size and every schedule of short reads, Worker.decompress ends -- with the
+   bytes or with an ordinary exception -- within 18 * (declared size + bytes left in the file) + 17 rounds:
+   at most 17 stalled rounds in a row; every other round delivers a byte of the declared size or takes a byte
+   of the finite file *)
 Theorem C05_decompress_loop_terminates :
   forall (stage_st : Type) (dstep : stage_st -> bytes -> Z -> stage_st * bytes)
-         (I : Decomp.dstate stage_st -> Z -> Prop) (lat : Decomp.dstate stage_st -> nat) (k : nat) (mb L0 : Z),
-    0 < mb ->
-    (forall st size, I st size -> Decomp.book_inv L0 st) ->
-    (forall st size rd st' out,
-        I st size -> 0 < size -> okrd stage_st st rd ->
-        Decomp.decompress dstep st (Z.min size mb) rd = Ok (st', out) ->
-        0 < size - Decomp.zlen out -> I st' (size - Decomp.zlen out)) ->
-    (forall st, (lat st <= k)%nat) ->
-    (forall st size rd st',
-        I st size -> 0 < size -> okrd stage_st st rd ->
-        Decomp.decompress dstep st (Z.min size mb) rd = Ok (st', []) ->
-        Decomp.consumed st' = Decomp.consumed st -> (lat st' < lat st)%nat) ->
-    forall st size sched fuel,
-      I st size -> Forall (fun k => (0 < k)%nat) sched ->
-      (Z.max size 0 + Decomp.zlen (Decomp.fp_rest st) + 1) * (Z.of_nat k + 1) <= Z.of_nat fuel ->
-      Decomp.worker_decompress dstep fuel st size mb sched <> Err EFuel.
-Proof. exact worker_terminates. Qed.
+         (st : Decomp.dstate stage_st) (size mb : Z) (sched : list nat) (fuel : nat),
+    18 * (Z.max size 0 + Decomp.zlen (Decomp.fp_rest st)) + 17 < Z.of_nat fuel ->
+    worker_guarded dstep fuel st size mb 0 sched <> Err EFuel.
+Proof. exact worker_guarded_rounds. Qed.
 Print Assumptions C05_decompress_loop_terminates.
 
-(* the contract is satisfiable: the Copy stage on a stream that holds the declared bytes *)
-Theorem C05_decompress_loop_terminates_copy : forall L0 mb st size sched fuel,
-  0 < mb -> copy_inv L0 st size -> Forall (fun k => (0 < k)%nat) sched ->
-  Z.max size 0 + Decomp.zlen (Decomp.fp_rest st) + 1 <= Z.of_nat fuel ->
-  Decomp.worker_decompress Decomp.toy_dstep fuel st size mb sched <> Err EFuel.
-Proof. exact copy_worker_terminates. Qed.
-Print Assumptions C05_decompress_loop_terminates_copy.
+(* from any count of stalled rounds *)
+Theorem C05_decompress_loop_terminates_from : 
+  forall (stage_st : Type) (dstep : stage_st -> bytes -> Z -> stage_st * bytes)
+         fuel (st : Decomp.dstate stage_st) size mb stalled sched,
+    0 <= stalled <= 16 ->
+    guarded_measure stage_st st size stalled < Z.of_nat fuel ->
+    worker_guarded dstep fuel st size mb stalled sched <> Err EFuel.
+Proof. exact worker_guarded_terminates. Qed.
+Print Assumptions C05_decompress_loop_terminates_from.
 
-Example C05_copy_contract_example :
-  copy_inv 7 (Decomp.toy_init [copy_st] [7] 7 4 [1; 2; 3; 4; 5; 6; 7]) 5 /\
-  Decomp.toy_worker 13 [copy_st] [7] 7 4 [1; 2; 3; 4; 5; 6; 7] 5 3 [1%nat; 2%nat] = Ok [1; 2; 3; 4; 5].
-Proof. exact (conj copy_inv_example copy_worker_example). Qed.
+(* encoded_header_loop: Header._read's loop, same bound *)
+Theorem C05_encoded_header_loop_terminates :
+  forall (stage_st : Type) (dstep : stage_st -> bytes -> Z -> stage_st * bytes)
+         (st : Decomp.dstate stage_st) (usize : Z) (sched : list nat) (fuel : nat),
+    18 * (Z.max usize 0 + Decomp.zlen (Decomp.fp_rest st)) + 17 < Z.of_nat fuel ->
+    header_guarded dstep fuel st usize [] 0 sched <> Err EFuel.
+Proof. exact header_guarded_rounds. Qed.
+Print Assumptions C05_encoded_header_loop_terminates.
 
-(* without the contract: a quiet, exhausted decompressor and bytes still wanted -- no fuel suffices *)
-Theorem C05_decompress_loop_refuted :
+(* the former loop (Decomp.worker_decompress, without the guard) never ended on a quiet, exhausted decompressor
+   with bytes still wanted -- kept as the documented behaviour of the OLD code ... *)
+Theorem C05_old_loop_spins :
   forall (stage_st : Type) (dstep : stage_st -> bytes -> Z -> stage_st * bytes) (quiet : stage_st -> Prop),
     (forall s ml, quiet s -> snd (dstep s [] ml) = [] /\ quiet (fst (dstep s [] ml))) ->
     forall fuel st size mb sched,
       Decomp.stuck quiet st -> 0 < size -> 0 < mb ->
       Decomp.worker_decompress dstep fuel st size mb sched = Err EFuel.
 Proof. exact Decomp.worker_spins. Qed.
-Print Assumptions C05_decompress_loop_refuted.
+Print Assumptions C05_old_loop_spins.
 
-(* the concrete scenario: Copy, declared unpack size 10, the stream holds 3 bytes *)
-Theorem C05_declared_size_exceeds_stream_refuted : forall fuel,
-  Decomp.toy_worker fuel [Decomp.toy_st 0 0 []] [10] 3 100 [1; 2; 3] 10 100 [] = Err EFuel.
-Proof. exact Decomp.toy_worker_spins. Qed.
-Print Assumptions C05_declared_size_exceeds_stream_refuted.
-
-(* encoded_header_loop: the same loop (max_block_size = what is still missing), hence the same two results *)
-Theorem C05_encoded_header_loop_is_worker_loop :
-  forall (stage_st : Type) (dstep : stage_st -> bytes -> Z -> stage_st * bytes) fuel st usize acc sched mb,
-    usize - Decomp.zlen acc <= mb ->
-    header_loop dstep fuel st usize acc sched =
-    with_acc stage_st acc (Decomp.worker_decompress dstep fuel st (usize - Decomp.zlen acc) mb sched).
-Proof. exact header_loop_is_worker. Qed.
-Print Assumptions C05_encoded_header_loop_is_worker_loop.
-
-Theorem C05_encoded_header_loop_terminates :
-  forall (stage_st : Type) (dstep : stage_st -> bytes -> Z -> stage_st * bytes)
-         (I : Decomp.dstate stage_st -> Z -> Prop) (lat : Decomp.dstate stage_st -> nat) (k : nat) (L0 : Z)
-         (st : Decomp.dstate stage_st) (usize : Z) (acc : bytes) (sched : list nat) (fuel : nat),
-    let mb := usize - Decomp.zlen acc in
-    0 < mb ->
-    (forall st size, I st size -> Decomp.book_inv L0 st) ->
-    (forall st size rd st' out,
-        I st size -> 0 < size -> okrd stage_st st rd ->
-        Decomp.decompress dstep st (Z.min size mb) rd = Ok (st', out) ->
-        0 < size - Decomp.zlen out -> I st' (size - Decomp.zlen out)) ->
-    (forall st, (lat st <= k)%nat) ->
-    (forall st size rd st',
-        I st size -> 0 < size -> okrd stage_st st rd ->
-        Decomp.decompress dstep st (Z.min size mb) rd = Ok (st', []) ->
-        Decomp.consumed st' = Decomp.consumed st -> (lat st' < lat st)%nat) ->
-    I st mb -> Forall (fun k => (0 < k)%nat) sched ->
-    (mb + Decomp.zlen (Decomp.fp_rest st) + 1) * (Z.of_nat k + 1) <= Z.of_nat fuel ->
-    header_loop dstep fuel st usize acc sched <> Err EFuel.
-Proof. exact header_loop_terminates. Qed.
-Print Assumptions C05_encoded_header_loop_terminates.
-
-Theorem C05_encoded_header_loop_refuted :
+(* ... in the very same states the guarded loop raises Bad7zFile after at most 17 rounds *)
+Theorem C05_stuck_now_raises :
   forall (stage_st : Type) (dstep : stage_st -> bytes -> Z -> stage_st * bytes) (quiet : stage_st -> Prop),
     (forall s ml, quiet s -> snd (dstep s [] ml) = [] /\ quiet (fst (dstep s [] ml))) ->
-    forall fuel st usize acc sched,
-      Decomp.stuck quiet st -> Decomp.zlen acc < usize ->
-      header_loop dstep fuel st usize acc sched = Err EFuel.
-Proof. exact header_loop_spins. Qed.
-Print Assumptions C05_encoded_header_loop_refuted.
+    forall (n : nat) st size mb stalled sched (fuel : nat),
+      Decomp.stuck quiet st -> 0 < size -> 0 < mb -> stalled = 16 - Z.of_nat n -> (n < fuel)%nat ->
+      worker_guarded dstep fuel st size mb stalled sched = Err EBad7z.
+Proof. exact worker_guarded_stuck_raises. Qed.
+Print Assumptions C05_stuck_now_raises.
 
-Theorem C05_encoded_header_size_exceeds_stream_refuted : forall fuel,
-  toy_header_loop fuel [Decomp.toy_st 0 0 []] [10] 3 100 [1; 2; 3] 10 [] = Err EFuel.
-Proof. exact toy_header_loop_spins. Qed.
-Print Assumptions C05_encoded_header_size_exceeds_stream_refuted.
+(* the concrete scenario (Copy, declared 10 bytes, the stream holds 3): old loop, new loops, and a run that succeeds
+   under short reads *)
+Example C05_declared_size_exceeds_stream :
+  (forall fuel, Decomp.toy_worker fuel [Decomp.toy_st 0 0 []] [10] 3 100 [1; 2; 3] 10 100 [] = Err EFuel) /\
+  toy_worker_guarded 40 [Decomp.toy_st 0 0 []] [10] 3 100 [1; 2; 3] 10 100 [] = Err EBad7z /\
+  toy_header_guarded 40 [Decomp.toy_st 0 0 []] [10] 3 100 [1; 2; 3] 10 [] = Err EBad7z /\
+  toy_worker_guarded 40 [Decomp.toy_st 0 0 []] [10] 10 4 [1; 2; 3; 4; 5; 6; 7; 8; 9; 10] 10 3 [1%nat; 2%nat]
+    = Ok [1; 2; 3; 4; 5; 6; 7; 8; 9; 10].
+Proof. exact (conj Decomp.toy_worker_spins toy_guarded_witness). Qed.
 
 (* non-vacuity of the cost functions: concrete values *)
 Example C05_cost_examples :
-  packpositions [3; 4; 5] 3 = [0; 3; 7; 12] /\ packpositions_steps 3 3 = 10 /\
-  utf16_iters [65; 0; 0; 0; 7] = 2 /\ names_steps 3 [65; 0; 0; 0] = 131074 /\
-  packed_indices_steps [(1, 0); (2, 1)] 3 = 5 /\ read_digest_iters (2 ^ 63) (2 ^ 20) = 2 ^ 43 /\
+  packpositions [3; 4; 5] = [0; 3; 7; 12] /\ packpositions_steps 3 = 4 /\
+  utf16_iters [65; 0; 0; 0; 7] = 2 /\ utf16_iters [65; 0; 66] = 2 /\ names_steps 3 [65; 0; 0; 0] = 4 /\
+  packed_indices_steps [(1, 0); (2, 1)] 3 = 5 /\ packed_indices [(1, 0); (2, 1)] 3 = [0] /\
+  read_digest_iters (2 ^ 63) (2 ^ 20) 100 = 2 /\
   parse_header 10 [1; 5; 3; 0; 0] <> Err EFuel /\ parse_header 2 [1; 5; 3; 0; 0] = Err EFuel.
 Proof. vm_compute. repeat split; try reflexivity. discriminate. Qed.
